@@ -185,3 +185,86 @@ def _judge(res, fx, top, outer, inner):
                                 "the subterms are evaluated right to left" % (top.split("::")[-1], a, to["sp"]["line"], b, line, idx[2], b, a), file, line)
                     return
                 break
+
+
+def rule_focus_cut(ctx):
+    """R-FOCUSCUT: focusing a cut whose sides need no lifting focuses the two sides"""
+    from ..interp import Adt, Sym, Vec, Interp
+    from .. import backend
+    fx = ctx.fx
+    res = RuleResult("R-FOCUSCUT", "`Focusing for Cut`, folded on every pair of a producer and a consumer that are not xtors or operations (variables, "
+                     "abstractions, (co)matches, literals): the result is the cut of the focused producer and the focused consumer, "
+                     "N(<p | c>) = <N(p) | N(c)>, whatever the abstraction's body looks like. A rule that rewrites such a cut by looking into "
+                     "the body of an abstraction - passing the consumer to a call inside `mu a. f(t, a)`, say - changes which side runs first: "
+                     "at a codata type the producer is a thunk that must not run until it is forced")
+    C = "scc_core_lang::syntax::"
+    key = "<scc_core_lang::syntax::statements::cut::Cut<Term,Term> as scc_core_lang::traits::focus::Focusing>::focus"
+    f = fx.fn(key)
+    PRD, CNS = Adt(C + "terms::Prd", "Prd", {}), Adt(C + "terms::Cns", "Cns", {})
+
+    def ident(nm, i):
+        return Adt(C + "names::Identifier", "Identifier", {"name": nm, "id": i})
+    TY = Adt(C + "types::Ty", "Decl", {"0": ident("T", 0)})
+
+    def T(variant, inner):
+        return Adt(C + "terms::Term", variant, {"0": inner})
+
+    def mk(kind, pc, tag):
+        if kind == "Mu":
+            return T("Mu", Adt(C + "terms::mu::Mu", "Mu", {"prdcns": pc, "variable": ident("b" + tag, 1), "ty": TY, "statement": Sym("body" + tag, adt=C + "statements::Statement")}))
+        if kind == "XVar":
+            return T("XVar", Adt(C + "terms::xvar::XVar", "XVar", {"prdcns": pc, "var": ident("v" + tag, 2), "ty": TY}))
+        if kind == "XCase":
+            return T("XCase", Adt(C + "terms::xcase::XCase", "XCase", {"prdcns": pc, "clauses": Sym("clauses" + tag), "ty": TY}))
+        return T("Literal", Adt(C + "terms::literal::Literal", "Literal", {"lit": 7}))
+    n = 0
+    for pk in ("Mu", "XVar", "XCase", "Literal"):
+        for ck in ("Mu", "XVar", "XCase"):
+            prod, cons = mk(pk, PRD, "P"), mk(ck, CNS, "C")
+
+            def hook(I, p, fr, t, args):
+                nm = t.get("callee_name")
+                if nm == "focus" and (t.get("callee_trait") or "").endswith("focus::Focusing") and fr.f["key"] == f["key"]:
+                    v = I.deref(args[0])
+                    return Adt("FOCUSED", "of", {"0": repr(v)[:80]})
+                if nm in ("bind", "bind_many") and fr.f["key"] == f["key"]:
+                    return Adt("FOCUSED", "bound", {"0": repr(I.deref(args[0]))[:80]})
+                return NotImplemented
+            I = Interp(fx, hooks=[hook], max_depth=6, max_paths=64)
+            cut = Adt(C + "statements::cut::Cut", "Cut", {"producer": prod, "ty": TY, "consumer": cons})
+            holder = Adt(None, None, {"0": 50})
+            from .linear import _MutInt
+            outs = I.run(f, [cut, _MutInt(I, holder)])
+            normal = [o for o in outs if not getattr(o, "diverged", None)]
+            ikey = "<%s | %s>" % (pk, ck)
+            n += 1
+            if not normal:
+                msg = backend.fold_verdict(outs, "R-FOCUSCUT: %s" % ikey)
+                res.inst(ikey, f["sp"]["file"], f["sp"]["line"], "violation")
+                res.violate(ikey, msg, f["sp"]["file"], f["sp"]["line"])
+                continue
+            if any(str(c_[0]).startswith("switch@") and "Unknown" in str(c_) for o in normal for c_ in o.conds):
+                raise AnalysisError("R-FOCUSCUT: %s forks on a value the analysis cannot follow" % ikey)
+            want_p, want_c = repr(prod)[:80], repr(cons)[:80]
+            bad = None
+            for o in normal:
+                r = I.deref(o.result)
+                inner = I.deref(r.fields.get("0")) if isinstance(r, Adt) and r.variant == "Cut" else None
+                okp = okc = False
+                if isinstance(inner, Adt):
+                    pr, cn = I.deref(inner.fields.get("producer")), I.deref(inner.fields.get("consumer"))
+                    okp = isinstance(pr, Adt) and pr.path == "FOCUSED" and pr.variant == "of" and pr.fields["0"][:40] == want_p[:40]
+                    okc = isinstance(cn, Adt) and cn.path == "FOCUSED" and cn.variant == "of" and cn.fields["0"][:40] == want_c[:40]
+                if not (okp and okc):
+                    bad = (o, r)
+            if bad:
+                o, r = bad
+                conds = [str(c_[0]) + "=" + str(c_[1]) for c_ in o.conds if not str(c_[0]).startswith("switch@")][-2:]
+                res.inst(ikey, f["sp"]["file"], f["sp"]["line"], "violation")
+                res.violate(ikey, "focusing the cut of a %s producer and a %s consumer%s does not yield the cut of the two focused sides (it yields %s): the "
+                            "rule looks into a side it should only focus, which changes what runs first" %
+                            (pk, ck, (" when " + " and ".join(conds)) if conds else "", repr(r)[:160]), f["sp"]["file"], f["sp"]["line"])
+            else:
+                res.inst(ikey, f["sp"]["file"], f["sp"]["line"], "ok", "%d path(s): <N(p) | N(c)>" % len(normal))
+    res.require_floor(12)
+    return res
